@@ -61,7 +61,7 @@ Print Assumptions C02_check_agrees.
    tree (shape, colours, node identities), nothing outside the nodes of the argument is touched, no NULL is dereferenced
    whenever the model does not Crash.  So the theorems above speak about the code as it is now for these functions;
    put_obj/remove_obj/remove_min, which call them, stay tied by the lockstep runs. *)
-From QV.Tree Require Import TreeHeap TreeHeapProofs TreeHeapMrl TreeHeapFix.
+From QV.Tree Require Import TreeHeap TreeHeapProofs TreeHeapMrl TreeHeapFix TreeHeapRmin.
 From QV.Gen Require Import TreeOps.
 Theorem C02_c_helpers_refine :
   refines c_flip_color flip /\ refines c_rotate_left rotl /\ refines c_rotate_right rotr /\
@@ -79,6 +79,13 @@ Proof. exact c_flip_same_ptr. Qed.
 Theorem C02_c_find_min_max : forall h p (t : tree positive), rep h p t ->
   c_find_min (size t) p h = Ok (tmin t, h) /\ c_find_max (size t) p h = Ok (tmax t, h).
 Proof. intros h p t H. exact (conj (c_find_min_ok h p t H) (c_find_max_ok h p t H)). Qed.
+(* remove_min(): the translated recursion (explicit fuel) refines the model's rmin for every fuel, and releases exactly the
+   node object of the least key: that object is not allocated afterwards (free_node), the others are the nodes of the
+   result, nothing outside the tree is touched.  (The pinned tree freed name and data but not the node: commit 5b84119.) *)
+Theorem C02_c_remove_min_refines : forall fuel h p (t t' : tree positive), rep h p t -> NoDup (elements t) -> rmin fuel t = Ok t' ->
+  exists p' h' m, c_remove_min fuel p h = Ok (p', h') /\ rep h' p' t' /\ elements t = m :: elements t' /\ h' m = None /\
+    frame (elements t) h h'.
+Proof. exact c_rmin_refines. Qed.
 (* non-vacuity: a three-node heap with a red right child; fix() rotates it to the left *)
 Example C02_c_helpers_nonvacuous :
   let h : heap := fun j => match j with 1%positive => Some (mkcell false (Some 2%positive) (Some 3%positive))
@@ -92,3 +99,4 @@ Proof. cbn. split; [repeat first [reflexivity | split | eexists]|]. split; [repe
 Print Assumptions C02_c_helpers_refine.
 Print Assumptions C02_c_flip_same_pointer.
 Print Assumptions C02_c_find_min_max.
+Print Assumptions C02_c_remove_min_refines.
